@@ -560,6 +560,7 @@ func ParseURI(uri SIPStr, puri *PsipURI) (ErrorURI, int) {
 					puri.Host.Reset()
 					puri.Port.Reset()
 					puri.PortNo = 0
+					portNo = 0 // forget the digits of the "port" seen so far
 					puri.Params.Reset()
 					puri.Headers.Reset()
 				} else {
@@ -621,6 +622,7 @@ func ParseURI(uri SIPStr, puri *PsipURI) (ErrorURI, int) {
 					puri.Host.Reset()
 					puri.Port.Reset()
 					puri.PortNo = 0
+					portNo = 0 // forget the digits of the "port" seen so far
 					puri.Params.Reset()
 					puri.Headers.Reset()
 				} else {
